@@ -22,3 +22,30 @@ class PowerLaw:
 
     def __repr__(self) -> str:
         return f"PowerLaw{self.orders}"
+
+
+class PowerQuot:
+    """v = (prod_i num_i ** n_i) / (prod_j den_j ** m_j): the numerator by repeated multiplication from 1.0, then the
+    denominator likewise, then ONE division (4th pass: parameters computed from other parameters, kr = kf / keq).  The
+    arguments are the numerator arguments followed by the denominator arguments."""
+
+    def __init__(self, num_orders, den_orders):
+        self.num_orders = tuple(int(n) for n in num_orders)
+        self.den_orders = tuple(int(n) for n in den_orders)
+
+    def __call__(self, *args):
+        k = len(self.num_orders)
+        u = 1.0
+        for x, n in zip(args[:k], self.num_orders, strict=True):
+            for _ in range(n):
+                u = u * x
+        if not self.den_orders:
+            return u
+        w = 1.0
+        for x, n in zip(args[k:], self.den_orders, strict=True):
+            for _ in range(n):
+                w = w * x
+        return u / w
+
+    def __repr__(self) -> str:
+        return f"PowerQuot{self.num_orders}/{self.den_orders}"
